@@ -205,6 +205,35 @@ def check_single_feedback(kind, alts, singles, inp, rec):
                             'the alternative\'s own message %r' % (kind, inp, alt['e'], alt['g'], r['msg'], alt['m']))
 
 
+def check_zero_credit_feedback(kind, opts, alts, singles, inp, seed, rec):
+    """A zero-credit alternative with specific feedback (a 'common wrong answer'): whether the input matches it
+    cannot be read off the grade, so it is read off a twin of that alternative worth full credit - if the twin gives
+    grade 1 the input is a full match, and the zero-credit alternative must deliver its own message."""
+    if kind not in ('S', 'F', 'N', 'M', 'SL'):
+        return
+    k = 0
+    for alt in alts:
+        for j in range(len(alt['e'])):
+            status, r = singles[k]
+            k += 1
+            if status != 'ok' or alt['g'] != 0 or not alt['m']:
+                continue
+            twin = make(kind, opts, answers=single_answer(dict(alt, g=1), j))
+            set_seed(seed)
+            st_, r1 = call(twin, None, inp)
+            rec.calls()
+            if st_ != 'ok' or r1['grade_decimal'] != 1:
+                continue
+            rec.cls('single/zero-credit-feedback-checked')
+            # a SingleListGrader reports its items' messages followed by the list's own message
+            delivered = (alt['m'] in r['msg'] or fmt(alt['m']) in r['msg']) if kind == 'SL' else \
+                r['msg'] in (fmt(alt['m']), alt['m'])
+            if not delivered:
+                raise Violation('single/zero-credit-alternative-feedback-lost',
+                                '%s grader, input %r fully matches the zero-credit alternative %r but the message is '
+                                '%r, not its own message %r' % (kind, inp, alt['e'][j], r['msg'], alt['m']))
+
+
 def derive(singles, wrong):
     """What the statement allows for the full grader, from the results against each alternative alone."""
     errs = [v for s, v in singles if s == 'err']
@@ -321,6 +350,7 @@ def run_item(kind, opts, alts, wrong, inputs, orders, seed, rec, untupled=False)
     for inp in inputs:
         singles = grade_alone(sg, inp, seed, rec)
         check_single_feedback(kind, alts, singles, inp, rec)
+        check_zero_credit_feedback(kind, opts, alts, singles, inp, seed, rec)
         want = derive(singles, wrong)
         nt = classify(rec, want, alts, wrong) or nt
         wants.append(want)
